@@ -481,24 +481,32 @@ public:
       return assign(refinement);
     }
     info().clear();
+    Result l_result = V_EQ;
+    Result u_result = V_EQ;
     switch (r) {
     case UNSIGNED:
-      umod_2exp_assign(LOWER, lower(), info(),
-                       LOWER, lower(), info(), w);
-      umod_2exp_assign(UPPER, upper(), info(),
-                       UPPER, upper(), info(), w);
+      l_result = umod_2exp_assign(LOWER, lower(), info(),
+                                  LOWER, lower(), info(), w);
+      u_result = umod_2exp_assign(UPPER, upper(), info(),
+                                  UPPER, upper(), info(), w);
       break;
     case SIGNED_2_COMPLEMENT:
-      smod_2exp_assign(LOWER, lower(), info(),
-                       LOWER, lower(), info(), w);
-      smod_2exp_assign(UPPER, upper(), info(),
-                       UPPER, upper(), info(), w);
+      l_result = smod_2exp_assign(LOWER, lower(), info(),
+                                  LOWER, lower(), info(), w);
+      u_result = smod_2exp_assign(UPPER, upper(), info(),
+                                  UPPER, upper(), info(), w);
       break;
     default:
       PPL_UNREACHABLE;
       break;
     }
-    if (le(LOWER, lower(), info(), UPPER, upper(), info())) {
+    // A wrapped bound that had to be rounded lies strictly beyond the
+    // stored one (and the info may be unable to record that it is open):
+    // equal stored bounds then do not denote a singleton.
+    const bool exact = (l_result == V_EQ && u_result == V_EQ);
+    if (exact
+        ? le(LOWER, lower(), info(), UPPER, upper(), info())
+        : lt(LOWER, lower(), info(), UPPER, upper(), info())) {
       return intersect_assign(refinement);
     }
     PPL_DIRTY_TEMP(Interval, tmp);
